@@ -29,6 +29,9 @@ logger = get_logger(__name__)
 # Connection timeout in seconds
 REQUEST_TIMEOUT = 30.0
 
+# Maximum size of the response meta field in bytes
+MAX_META_SIZE = 1024
+
 
 class GeminiServerProtocol(asyncio.Protocol):
     """Server-side protocol for handling Gemini and Titan requests.
@@ -261,17 +264,41 @@ class GeminiServerProtocol(asyncio.Protocol):
             duration_ms=round(duration_ms, 2),
         )
 
-        # Build response header: <STATUS><SPACE><META><CRLF>
-        header = f"{response.status} {response.meta}\r\n"
-        self.transport.write(header.encode("utf-8"))
+        # Build the complete response before writing anything, so that a failure
+        # here can never leave a half-written response on the wire.
+        # Header: <STATUS><SPACE><META><CRLF>, body only for 2x success responses.
+        try:
+            status = int(response.status)
+            if not (10 <= status <= 69):
+                raise ValueError(f"Invalid status code: {status}")
 
-        # Send body if present (only for 2x success responses)
-        # FIX: Handle both text (str) and binary (bytes) content
-        if response.body:
-            if isinstance(response.body, bytes):
-                self.transport.write(response.body)
-            else:
-                self.transport.write(response.body.encode("utf-8"))
+            # Meta must be a single line of at most MAX_META_SIZE bytes
+            meta = str(response.meta).replace("\r", " ").replace("\n", " ")
+            meta_bytes = meta.encode("utf-8")
+            if len(meta_bytes) > MAX_META_SIZE:
+                meta_bytes = (
+                    meta_bytes[:MAX_META_SIZE].decode("utf-8", "ignore").encode("utf-8")
+                )
+            header = b"%d %s\r\n" % (status, meta_bytes)
+
+            body = b""
+            if response.body and 20 <= status <= 29:
+                if isinstance(response.body, bytes):
+                    body = response.body
+                else:
+                    body = response.body.encode("utf-8")
+        except Exception as e:
+            logger.error(
+                "invalid_response",
+                error=str(e),
+                exception_type=type(e).__name__,
+            )
+            header = b"40 Server error: invalid response\r\n"
+            body = b""
+
+        self.transport.write(header)
+        if body:
+            self.transport.write(body)
 
         # Close connection (Gemini/Titan: one request per connection)
         self.transport.close()
